@@ -15,9 +15,12 @@ def plan(tier):
             d = ['-DKIND=%d' % kind, '-DNTHR=%d' % nthr, '-DMAXREC=%d' % maxrec]
             nvin = nthr * (1 + maxrec * 3)
             prof = [[1, 2, 97, 98, 1, 99, 0][:1 + 3 * maxrec] * nthr + [2, 5] * nthr + [0, 1, 0, 1] * 12, [maxrec, 1, 97, 0, 2, 99, 100][:1 + 3 * maxrec] * nthr + [5, 0] * nthr + [1, 0, 0, 1, 1, 0] * 8]
-            qs.append(Query('k%d_t%d_r%d' % (kind, nthr, maxrec), d, W, unwind=2, hardcap=nthr * 24 + 4, est_gb=4, timeout=3000 if th else 900, profile=prof, harness_unwind=nthr * 24 + 2,
+            qs.append(Query('k%d_t%d_r%d' % (kind, nthr, maxrec), d, W, unwind=2, hardcap=nthr * 24 + 4, est_gb=4, timeout=3000 if th else 900, profile=prof, harness_unwind=nthr * 24 + 2, trust_solver=True,
                             sample={'sink': KINDS[kind], 'threads': nthr, 'records_per_thread': '1..%d' % maxrec, 'record_bytes': '1..2 symbolic', 'schedules': 'all (symbolic scheduler)'}))
-    corpus = [(q.defs, p) for q in qs[:3] for p in q.profile]
+    # negative control: the lock-free StdOut sink (no mutex) must be refuted by the same scheduler harness
+    qs.append(Query('control_lockfree_t2_r1', ['-DKIND=9', '-DNTHR=2', '-DMAXREC=1'], [], unwind=2, hardcap=52, est_gb=4, profile=qs[0].profile, harness_unwind=50, trust_solver=True,
+                    expect_fail=True, sample={'sink': 'StdOut (no lock): negative control, must be refuted', 'threads': 2}))
+    corpus = []
     u = Unit('mt', 'harness/C09/h_c09.cpp', 'harness/C09/cb_c09.c', caps={'str': 8, 'vec': 2, 'ss': 8}, cxx_defs=['-DVSTD_SHARED_STDIO', '-DNITRO_VERIF_NO_MESSAGES'], queries=qs, corpus=[])
     return Runner('C09', tier, [u],
                   bounds={'threads': '2 (quick) / 2..3 (thorough)', 'records_per_thread': '1..2', 'record_bytes': '1..2, symbolic', 'schedules': 'every interleaving of the recorded events (lock, unlock, read-length, write-byte, flush)'},
